@@ -38,12 +38,12 @@ import (
 
 // vfFlightScript rewrites the flights of one connection (keyed by its handshake config).
 type vfFlightScript struct {
-	Omit    map[handshake.Type]bool // drop these message types from every generated flight
+	Omit map[handshake.Type]bool // drop these message types from every generated flight
 	// EditFinished, when set, replaces the verify_data of every Finished this connection generates (the record is
 	// still protected correctly: only the proof inside is wrong)
 	EditFinished func(verifyData []byte) []byte
 	applied      int
-	mu      sync.Mutex
+	mu           sync.Mutex
 }
 
 var vfScripts sync.Map // *dtlsconfig.HandshakeConfig -> *vfFlightScript
@@ -247,18 +247,18 @@ func vfOwnLeafPlusVictimCert(victim tls.Certificate, dns string) tls.Certificate
 }
 
 type vfC03Row struct {
-	Name    string
-	Ver     string // 12 | 13
-	Rogue   string // "s": server is the rogue (client honest) ; "c": client is the rogue
-	Dev     string
-	Kind    string // ecdsa | rsa | ed25519
-	Policy  ClientAuthType
-	Verify  bool   // honest client verifies the server chain (RootCAs + ServerName)
-	Expect  string // accept | reject | either
-	PSK     bool
-	Variant string // cross dimension: plain | noems | cid | nohv | mtu100
-	SrvName string // the name the honest client is configured with (default vfServerName); may be an IP literal
-	Callback bool  // the honest side also installs a VerifyPeerCertificate callback that accepts whatever it is shown
+	Name     string
+	Ver      string // 12 | 13
+	Rogue    string // "s": server is the rogue (client honest) ; "c": client is the rogue
+	Dev      string
+	Kind     string // ecdsa | rsa | ed25519
+	Policy   ClientAuthType
+	Verify   bool   // honest client verifies the server chain (RootCAs + ServerName)
+	Expect   string // accept | reject | either
+	PSK      bool
+	Variant  string // cross dimension: plain | noems | cid | nohv | mtu100
+	SrvName  string // the name the honest client is configured with (default vfServerName); may be an IP literal
+	Callback bool   // the honest side also installs a VerifyPeerCertificate callback that accepts whatever it is shown
 }
 
 func (r vfC03Row) ID() string {
